@@ -161,6 +161,17 @@ def run(ctx):
     nontriv += sum(1 for e in events if e["ev"] == "query" and e.get("got"))
     ctx.cov["distinct_nontrivial"] = nontriv
     ctx.cov["exhaustive"] = True
+    # the listing rule scaled beyond the model's three uploads (IDs pass .9 -> .10 on one day)
+    lp = os.path.join(ctx.work, "listmany.json")
+    ctx.harness(["storequery", "listmany", lp, 12 if q else 25])
+    lm = json.load(open(lp))
+    ctx.cov["listmany_runs"] = lm["runs"]
+    ctx.cov["evaluations"] += lm["runs"]
+    if lm["failures"]:
+        ctx.harness(["storequery", "listmany", lp, 12 if q else 25])
+        if not json.load(open(lp))["failures"]:
+            raise vlib.Infra("listing failure over many uploads did not reproduce")
+        ctx.report([dict(f, family="storequery-listmany") for f in lm["failures"][:5]], "listing over many uploads")
     return ctx.finish(RULE, assumptions=[
         "uploads that the server rejects are outside the statement (successful uploads only): a file label named like a "
         "label derived from the benchmark name (name, sub1, gomaxprocs, a /key= part) makes the upload fail with a UNIQUE "
